@@ -118,7 +118,7 @@ def run(sc):
                     hits.hit("C12", "sock.recv_result", f"receive() returned {len(val)} bytes although the "
                              f"peer failed after {fault['byte']} of {len(frame)} ({trig})",
                              outcome="partial", trigger=trig, direction="recv")
-                elif type(val).__name__ != "CommError":
+                elif not isinstance(val, harness.lib().CommError):        # CommError or a subclass of it
                     hits.hit("C12", "sock.recv_result", f"receive() raised {type(val).__name__}, not CommError",
                              outcome="library:" + type(val).__name__, trigger=trig, direction="recv")
             else:
@@ -144,7 +144,7 @@ def run(sc):
                     hits.hit("C12", "sock.send_result", f"send() returned {val} although the transport failed "
                              f"at byte {fault['byte']} ({trig})", outcome="ok-on-fault", trigger=trig,
                              direction="send")
-                elif type(val).__name__ != "CommError":
+                elif not isinstance(val, harness.lib().CommError):        # CommError or a subclass of it
                     hits.hit("C12", "sock.send_result", f"send() raised {type(val).__name__}, not CommError",
                              outcome="library:" + type(val).__name__, trigger=trig, direction="send")
             else:
